@@ -12,6 +12,9 @@ def gen_records(rng):
     alpha = {"dna": gen.DNA, "rna": gen.RNA, "protein": gen.AA}[kind]
     mode = rng.choice(["family", "family", "short_long_names", "equal"])
     n = rng.randint(3, 30)
+    if rng.random() < 0.2:
+        mode = "family"
+        n = rng.randint(51, 120)
     if mode == "short_long_names":
         # padding-dominated Clustal files: very short sequences, long names
         seqs = gen.family(rng, n, rng.randint(3, 12), alpha, "random", 0.2, 0.05, 1)
@@ -22,8 +25,8 @@ def gen_records(rng):
         seqs = [gen.mutate(rng, root, alpha, 0.15, 0.0)[:L].ljust(L, alpha[0]) for _ in range(n)]
         names = gen.names(rng, n, rng.choice(["s", "rand"]))
     else:
-        seqs = gen.family(rng, n, rng.randint(10, 250), alpha, "random", 0.15, 0.04, 3)
-        names = gen.names(rng, n, rng.choice(["s", "rand", "num", "long"]))
+        seqs = gen.family(rng, n, rng.randint(10, 250) if n <= 50 else rng.randint(10, 60), alpha, "random", 0.15, 0.04, 3)
+        names = gen.names(rng, n, rng.choice(["s", "rand", "num", "long"]) if n <= 50 else "s")
     if kind == "protein":
         seqs = [s + "".join(rng.choice(gen.AA_ONLY) for _ in range(len(s) // 2 + 1)) for s in seqs]
     if rng.random() < 0.2:
@@ -61,8 +64,22 @@ def presentations(ck, rng, recs, paths, base_rows, tier):
     elif v == "no_final_newline":
         t = fmt.write_fasta(recs).rstrip("\n")
     else:
-        t = "\n\n" + fmt.write_fasta(recs)
+        t = "\n" * rng.choice([1, 2, 4, 5, 6, 10]) + fmt.write_fasta(recs)
     out.append(("fasta_%s" % v, [f(t)], None))
+    # many leading blank lines (always)
+    kbl = rng.choice([5, 6, 8, 12])
+    out.append(("fasta_leading_blank_lines_%d" % kbl, [f("\n" * kbl + fmt.write_fasta(recs))], None))
+    # gap characters only in late records: a stray '-' / an unaligned file followed by an aligned one
+    late = list(recs)
+    k = rng.randrange(len(late) * 2 // 3, len(late))
+    nm, sq = late[k]
+    pos = rng.randint(0, len(sq))
+    late[k] = (nm, sq[:pos] + rng.choice(["-", "--", "."]) + sq[pos:])
+    out.append(("fasta_stray_gap_in_late_record", [f(fmt.write_fasta(late))], None))
+    if len(recs) >= 4:
+        cut = rng.randint(2, len(recs) - 2)
+        tail_rows = gen.insert_gaps(rng, seqs[cut:], 0.3, "-")
+        out.append(("split_plain_then_aligned", [f(fmt.write_fasta(recs[:cut])), f(fmt.write_fasta(list(zip(names[cut:], tail_rows))))], None))
     # Clustal
     crate = rng.choice([0.1, 1.0, 6.0])
     crows = gen.insert_gaps(rng, seqs, crate, "-")
@@ -108,10 +125,10 @@ def presentations(ck, rng, recs, paths, base_rows, tier):
         if os.path.exists(o):
             out.append(("kalign_own_%s_output" % F, [o], None))
     if tier == "quick":
-        keep = rng.sample(out, min(12, len(out)))
+        keep = rng.sample(out, min(14, len(out)))
         # always keep the split presentations with a one-record / empty part
-        must = [p for p in out if "one_record" in p[0] or "empty" in p[0] or "stdin" in p[0]]
-        out = must + [p for p in keep if p not in must][:max(0, 12 - len(must))]
+        must = [p for p in out if "one_record" in p[0] or "empty" in p[0] or "stdin" in p[0] or "leading_blank" in p[0] or "stray_gap" in p[0] or "plain_then_aligned" in p[0]]
+        out = must + [p for p in keep if p not in must][:max(0, 14 - len(must))]
     return out
 
 
@@ -163,8 +180,8 @@ def run(ck, tier):
     sc = getattr(ck, "scale", 1.0)
     n = int((45 if tier == "quick" else 800) * sc)
     common.pmap(lambda i: run_case(ck, paths, i, tier), range(n), workers=10)
-    ck.rule = ("record sets (DNA/RNA/protein, 3..30 records, incl. very short sequences under 100..200-character names) re-presented as: aligned FASTA with 0.05..20 gap "
-               "characters per residue using - . ~ * _; FASTA line widths 1..5000; blank lines, trailing blanks, CRLF, missing final newline; Clustal W/O/Kalign headers with block "
+    ck.rule = ("record sets (DNA/RNA/protein, 3..30 and 51..120 records, incl. very short sequences under 100..200-character names) re-presented as: aligned FASTA with 0.05..20 gap "
+               "characters per residue using - . ~ * _; FASTA line widths 1..5000; blank lines (1..12 leading), trailing blanks, CRLF, missing final newline; gap characters only in a late record, plain part followed by an aligned part; Clustal W/O/Kalign headers with block "
                "widths 20..120, name padding 1..40, consensus and residue-count columns; MSF with 10-column groups and ./~ gaps; 2..5 files in order, one-record first/last part, "
                "empty part, first part or everything on stdin, mixed formats across parts; kalign's own three output formats. Oracle: output bytes equal to the bare one-file FASTA "
                "run. Non-trivial = base alignment contains gaps.")
